@@ -25,9 +25,9 @@ type IntC struct {
 }
 
 type StrC struct {
-	Empty                                 bool
+	Empty                                  bool
 	Equals, Contains, HasPrefix, HasSuffix string
-	ByteLen                               *IntC
+	ByteLen                                *IntC
 }
 
 // TimeC: unix seconds, 0 = not set.
